@@ -116,8 +116,9 @@ class State:
     def __init__(s):
         s.locals = {}; s.heap = {}; s.pc = []; s.ghost = {}
     def fork(s):
-        t = State(); t.locals = dict(s.locals); t.pc = list(s.pc); t.ghost = dict(s.ghost)
-        t.heap = {k: (c, dict(f)) for k, (c, f) in s.heap.items()}
+        cp = lambda v: list(v) if isinstance(v, list) else dict(v) if isinstance(v, dict) else v      # mutable containers are per path
+        t = State(); t.locals = {k: cp(v) for k, v in s.locals.items()}; t.pc = list(s.pc); t.ghost = {k: cp(v) for k, v in s.ghost.items()}
+        t.heap = {k: (c, {fk: cp(fv) for fk, fv in f.items()}) for k, (c, f) in s.heap.items()}
         return t
     def new_obj(s, cls, fields=None):
         oid = max(s.heap, default=0) + 1
@@ -437,7 +438,8 @@ class Engine:
             if other is not None: raise Unsupported("SOpt identity with non-None")
             return SBool(o.isnone) if isinstance(op, ast.Is) else SBool(z3.Not(o.isnone))
         if isinstance(op, (ast.Is, ast.IsNot)):
-            same = (a is None and b is None) or (isinstance(a, Ref) and isinstance(b, Ref) and a == b)
+            same = (a is None and b is None) or (isinstance(a, Ref) and isinstance(b, Ref) and a == b) or \
+                   (isinstance(a, tuple) and isinstance(b, tuple) and a == b)          # abstract objects are named by tagged tuples
             if (a is None) != (b is None): same = False
             return same if isinstance(op, ast.Is) else not same
         if isinstance(a, SOpt) or isinstance(b, SOpt):
@@ -744,6 +746,8 @@ class Engine:
             if hook is not None: hook(st, base, args[0], ctx, node)
             if isinstance(base, list): base.append(args[0])
             return [(st, None)]
+        if isinstance(base, list) and attr == "clear" and not args:
+            base.clear(); return [(st, None)]
         h = s.prelude_methods.get(attr)
         if h is not None: return h(s, st, base, args, ctx, node)
         raise Unsupported(f"method {attr} line {node.lineno}")
@@ -769,6 +773,7 @@ class Engine:
                 if flow != NORMAL: nxt.append((st1, flow, val)); continue
                 res = s.exec(stmt, st1, ctx)
                 cut = s.cuts.get((ctx.qual, stmt.lineno)) or s.cuts.get((ctx.qual, s.stmt_selector(stmt)))
+                if cut is None and isinstance(stmt, (ast.For, ast.While)): cut = s.cuts.get((ctx.qual, f"loop:{ctx.loop_ordinal(stmt)}"))
                 if cut:
                     for st2, f2, v2 in res:
                         if f2 == NORMAL:
@@ -957,6 +962,8 @@ class Engine:
             if isinstance(it, Raised): outs.append((st1, RAISE, it)); continue
             if isinstance(it, tuple) and it and it[0] == "range" and all(isinstance(a, int) for a in it[1]):
                 outs += s.unroll(stmt, st1, list(range(*it[1])), ctx)
+            elif isinstance(it, list) and isinstance(stmt.iter, (ast.Name, ast.Attribute)):
+                outs += s.unroll_live(stmt, st1, ctx)
             elif isinstance(it, (list, tuple, dict)) and not (isinstance(it, tuple) and it and it[0] == "range"):
                 outs += s.unroll(stmt, st1, list(it), ctx)
             elif isinstance(it, tuple) and it[0] == "range":
@@ -979,6 +986,26 @@ class Engine:
                     else: done.append((st2, f2, v2))
             frontier = nxt
         return done + frontier
+
+    def unroll_live(s, stmt, st, ctx, limit=64):
+        """for x in <list held in a variable or field>: Python's list iterator re-reads the list on every step (index < len), so a body
+        that clears or extends the list changes the iteration; the list is re-evaluated in the current state before every step"""
+        if stmt.orelse: raise Unsupported("for/else")
+        frontier = [(st, NORMAL, None)]; done = []; i = 0
+        while frontier:
+            if i > limit: raise Unsupported("list iteration does not end")
+            nxt = []
+            for st1, flow, val in frontier:
+                (st_, cur), = s.eval(stmt.iter, st1, ctx)
+                if not isinstance(cur, list): raise Unsupported("iterated variable no longer holds a list")
+                if i >= len(cur): done.append((st1, NORMAL, None)); continue
+                s.assign(stmt.target, cur[i], st1, ctx)
+                for st2, f2, v2 in s.exec_block(stmt.body, st1, ctx):
+                    if f2 in (NORMAL, CONTINUE): nxt.append((st2, NORMAL, None))
+                    elif f2 == BREAK: done.append((st2, NORMAL, None))
+                    else: done.append((st2, f2, v2))
+            frontier = nxt; i += 1
+        return done
 
     def assigned_names(s, body):
         names = set()
